@@ -1,3 +1,4 @@
+-- DRIVER: pbc Pms.Pbc.handlePbc
 import Pms.Model.Pbc
 import Pms.Model.Io
 /-! Driver operations for C02 (exact ℚ). -/
